@@ -892,3 +892,79 @@ package runtime
 //@   modifies everything()
 //@   exits any
 //@   allocs charged slack 0
+
+// ---------------------------------------------------------------------------
+// C10: to-be-closed variables at run time
+// ---------------------------------------------------------------------------
+
+// The close stack is a LIFO of values.
+//@ func (closeStack).size
+//@   prop C10
+//@   arith int
+//@   modifies nothing
+//@   ensures result == len(s.stack)
+
+//@ func (*closeStack).push
+//@   prop C10
+//@   arith int
+//@   requires s != nil
+//@   modifies everything()
+//@   ensures len(s.stack) == old(len(s.stack)) + 1 && s.stack[len(s.stack)-1] == v
+//@   ensures forall(j, 0, old(len(s.stack)), s.stack[j] == old(s.stack[j]))
+
+//@ func (*closeStack).pop
+//@   prop C10
+//@   arith int
+//@   requires s != nil
+//@   modifies s.stack
+//@   ensures result1 == (old(len(s.stack)) > 0)
+//@   ensures result1 ==> len(s.stack) == old(len(s.stack)) - 1 && result0 == old(s.stack[len(s.stack)-1])
+//@   ensures !result1 ==> len(s.stack) == 0 && result0 == NilValue
+
+//@ func (*closeStack).truncate
+//@   prop C10
+//@   arith int
+//@   requires s != nil && 0 <= h
+//@   modifies s.stack
+//@   ensures 0 <= h ==> len(s.stack) == spec.min(old(len(s.stack)), h)
+
+// Unwinding: values are popped one at a time from the top (reverse order of
+// declaration) and __close is called exactly for the ones that are neither nil
+// nor false, with the value itself and the current error as arguments.
+//@ func (*Thread).cleanupCloseStack
+//@   prop C10
+//@   arith int
+//@   norte
+//@   nocover
+//@   requires t != nil
+//@   modifies everything()
+//@   exits any
+//@   loop 1: invariant true
+//@   assert_before_call Metacall: Truth(v)
+//@   assert_before_call Metacall: $obj == v
+//@   assert_before_call Metacall: len($args) == 2
+
+//@ func (*Runtime).metaGetS
+//@   external
+
+// Declaring: a value that is neither nil nor false must have a __close
+// metamethod (checked before it is pushed); nil and false are pushed as they are.
+//@ fragment clpush of (*LuaCont).RunInThread at switch opcode.GetJ()/case code.OpClStack/if#1/then
+//@   prop C10
+//@   arith int
+//@   norte
+//@   nocover
+//@   modifies everything()
+//@   requires t != nil && c != nil
+//@   exits any
+//@   assert_before_call push: $v == v
+
+//@ fragment cltrunc of (*LuaCont).RunInThread at switch opcode.GetJ()/case code.OpClStack/if#1/else
+//@   prop C10
+//@   arith bv
+//@   norte
+//@   nocover
+//@   modifies everything()
+//@   requires t != nil && c != nil
+//@   exits any
+//@   assert_before_call cleanupCloseStack: typeis($c, *LuaCont) && asType($c, *LuaCont) == c && $h == c.closeStackBase + int(opcode.GetClStackOffset()) && $err == nil
